@@ -99,7 +99,7 @@ func nativeRun(repo, verif string, dirFiles map[string][]string, h harnessInfo, 
 	ov := overlayFor(repo, verif, dirFiles, dirs, map[string]string{filepath.Join(repo, h.Dir, "zz_verif_replay_test.go"): testFile})
 	// schedule control: instrumented copies of every file of the package (sync points, go statements)
 	instrumented := map[string]bool{}
-	if replayHasSchedule(replayPath) || replayWantsDisk(replayPath) {
+	if replayHasSchedule(replayPath) || replayWantsDisk(replayPath) || len(nativeStubNames) > 0 {
 		srcs := map[string][]byte{}
 		var dirs []string
 		for d := range loadedPkgs {
